@@ -481,7 +481,7 @@ class Executor:
     BUILTINS = {
         "len", "min", "max", "isinstance", "set", "frozenset", "tuple", "list", "dict", "all", "any", "bool", "str",
         "sorted", "getattr", "enumerate", "type", "super", "object", "cast", "iter", "range", "hasattr", "repr", "id",
-        "int", "sum", "zip", "reversed", "abs", "setattr",
+        "int", "sum", "zip", "reversed", "abs", "setattr", "slice",
     }
     EXC_NAMES = {
         "ValueError", "TypeError", "KeyError", "NotImplementedError", "AssertionError", "RuntimeError",
